@@ -43,7 +43,11 @@ class Ctl:
     self.trace_count = 0
     self.cur_path = ()
 
+  yield_hook = None  # set by engines that run several simulated threads: every callback event is a scheduling point
+
   def event(self, what):
+    if self.yield_hook is not None:
+      self.yield_hook(what)
     i = self.count
     self.count += 1
     if self.fail_at is not None and i == self.fail_at:
